@@ -34,7 +34,7 @@ REQUIRED_BUCKETS = ["first-samples-as-a-burst-just-before-a-tick", "alignment-po
                     "align:none", "align:epoch", "align:past-nonmultiple", "align:future", "creation-exactly-aligned",
                     "creation-1us-off", "align_to-in-non-utc-timezone", "align_to-in-daylight-saving-zone", "resampling-function-yields-NaN-for-some-ticks", "latency>=1period", "latency-several-periods", "series-added-between-ticks",
                     "series-added-during-slow-tick", "catch-up-observed", "multi-series", "actor-tier",
-                    "actor-tier:timer-late>=1period", "series-ended:SourceStoppedError",
+                    "actor-tier:timer-late>=1period", "series-ended:SourceStoppedError", "slow-sink-takes-the-sample-late",
                     "series-ended:remove_timeseries", "moving-window-tier", "moving-window-tier:align:none",
                     "moving-window-tier:align:offset", "moving-window-tier:stopped-and-started-again",
                     "moving-window-tier:restart-then-late-timer"]
@@ -100,6 +100,18 @@ def gen(rng: Any, tier: str, i: int) -> Any:
             l = rng.choice([0.3, 1.0, 1.000001, 1.5, 3.7])
             maxlat = max(maxlat, l)
             lat.append([rng.randint(0, ticks - 5), rng.randrange(ns), l])
+    # the tick in which a series fails is a slow one for the others: their sinks are still being served when the
+    # failure of the victim is noticed
+    victim_i = next((i for i, x in enumerate(series) if x.get("end")), None)
+    if victim_i is not None and rng.random() < 0.6:
+        k0 = int(series[victim_i]["end"]["at"] / period)
+        for i in range(ns):
+            if i != victim_i:
+                for k in range(max(0, k0 - 2), k0 + 3):
+                    kk = k - int(max(series[i]["add_at"], 0.0) / period)
+                    if kk >= 0:
+                        lat.append([kk, i, rng.choice([0.3, 0.3, 0.6])])
+        maxlat = max(maxlat, 0.6)
     # force additions *during* a slow tick sometimes
     if lat and ns >= 2 and rng.random() < 0.5:
         t_no, s_idx, l = max(lat, key=lambda x: x[2])
@@ -114,7 +126,7 @@ def gen(rng: Any, tier: str, i: int) -> Any:
         zone = "Europe/Berlin"
         to_change = rng.choice([90, 300]) * 86400 + 3600 + rng.choice([0, 3600])  # seconds from the harness epoch
         start = round(start % period + (int(to_change / period) - rng.randint(3, 8)) * period, 6)
-    return {"creeping_clock": rng.random() < 0.3, "nan_every": rng.choice([0, 0, 0, 3, 5]), "align_zone": zone, "align_tz_min": tz_min, "period": period, "align": align, "align_kind": ak, "start_offset": start, "max_age": 3.0, "init_len": 4,
+    return {"sink_takes_late": rng.random() < 0.5, "creeping_clock": rng.random() < 0.3, "nan_every": rng.choice([0, 0, 0, 3, 5]), "align_zone": zone, "align_tz_min": tz_min, "period": period, "align": align, "align_kind": ak, "start_offset": start, "max_age": 3.0, "init_len": 4,
             "max_len": 16, "ticks": ticks, "series": series, "lat": lat,
             # (slow ticks can follow one another: the lag to be caught up is at most the sum of the latencies)
             "drain_periods": max(maxlat, sum(x[2] for x in lat)) + 3, "phase": phase}
@@ -454,6 +466,8 @@ def check(case: dict[str, Any], rec: Any) -> None:
     if abs(c["phase"]) == 1e-6:
         rec.bucket("creation-1us-off")
     lats = [l for _, _, l in c["lat"]]
+    if c.get("sink_takes_late") and lats:
+        rec.bucket("slow-sink-takes-the-sample-late")
     if any(l >= 1.0 for l in lats):
         rec.bucket("latency>=1period")
     if any(l > 2 for l in lats):
@@ -526,7 +540,7 @@ def check(case: dict[str, Any], rec: Any) -> None:
             if tss != expect[:len(tss)]:
                 rec.violation("series-timestamps-not-shared-or-gapped", {**w0, "series": i, "ended": str(gone),
                                                                          "got": [str(t) for t in tss[:40]]})
-            if any(e["t_recv"] > gone["at"] for e in lst):
+            if any(e.get("t_call", e["t_recv"]) > gone["at"] for e in lst):  # (the hand-over *began* after the removal)
                 rec.violation("sample-delivered-after-series-was-removed", {**w0, "series": i, "ended": str(gone)})
         elif tss != expect and tss != expect[:-1]:
             rec.violation("series-timestamps-not-shared-or-gapped", {**w0, "series": i, "got": [str(t) for t in tss[:40]],
